@@ -19,7 +19,7 @@ META = {
                   "grammar equals an independent left-to-right scanner, and the label lemmas. Every such string, plus run-level names that "
                   "put each label on 0/1/2/15/16/17/62/63/64 bytes and the total on 250..256 bytes, is emitted with the verdicts the grammar "
                   "predicts and replayed (>=3 concretisations each) on the three validators: nil-ness, dynamic error type *AddrError, "
-                  "Addr == input, and the hierarchy on the real results. Seeded random/mutated inputs are judged by the same TLA+ operators "
+                  "Addr == input (exact string equality, also for rejected inputs of 1023/1024/1025/1500/5000/70000 bytes: over-long labels of every class, long names of 63-byte labels with no / one bad byte at the start, middle, end), *LabelError.Label == input for the label validators, and the hierarchy on the real results. Seeded random/mutated inputs are judged by the same TLA+ operators "
                   "from abstract(idna.ToASCII(s)). No hidden state: NamesState.tla proves 'every call returns Grammar(kind, argument)' for a stateless and an exact per-validator memo design and refutes it for a memo compared with case folding (U+212A/U+017F look-alike of the name accepted just before, at the 63/253 limits), a memo shared between the validators (lenient then strict on one string) and an unsynchronised memo; the harness replays those histories: every input through all validators strict->lenient and lenient->strict, a sequential second pass over the shuffled inputs in random validator order with k/K->U+212A, s/S->U+017F and ASCII case-flip look-alikes validated right after (and right before) the ASCII name, each judged by idna.ToASCII + grammar, and goroutines validating their own names under -race.",
     "level_note": "Uniformity hypothesis: bytes of one class (letter, digit, '-', '_', '.', other) are treated alike; idna.ToASCII is the "
                   "trusted reference named by the property. Exhaustive only up to the stated length / label-count bounds.",
@@ -218,6 +218,10 @@ def names_jobs(ctx, d, q, tag, small=False):
                    TailLens="{1, 2, 58, 59, 60, 61, 62, 63, 64}" if q else "{0, 1, 2, 3, 16, 17, 57, 58, 59, 60, 61, 62, 63, 64, 65}"),
               invariants=["Emit", "HierInv", "SanityInv"])
     jobs.append({"dir": dg, "module": "NamesGen", "cfg": "run.cfg", "label": "names-gen-long"})
+    # rejected inputs of 1023..70000 bytes: the error must carry the WHOLE original input
+    dh = clone_dir(d, tag + "_huge")
+    write_cfg(dh / "run.cfg", "HugeSpec", base, invariants=["Emit", "HugeInv", "HierInv"])
+    jobs.append({"dir": dh, "module": "NamesGen", "cfg": "run.cfg", "label": "names-gen-huge", "workers": 2})
     return jobs
 
 
@@ -281,6 +285,8 @@ def run(ctx):
     ctx.distinct += s["inputs"]
     ctx.extra["trace_lines_judged"] = judged
     ctx.extra["trace_inexpressible_skipped"] = s["inexpressible_skipped"]
+    ctx.extra["trace_too_long_skipped"] = s.get("too_long_for_trace_skipped", 0)
+    ctx.extra["recorded_inputs_over_1000_bytes"] = s.get("huge_inputs", 0)
     ctx.extra["trace_toascii_failed"] = s["toascii_failed"]
     ctx.extra["trace_non_ascii_inputs"] = s["non_ascii_inputs"]
     ctx.extra["history_calls"] = total.get("history_calls", 0) + s.get("history_calls", 0)
